@@ -312,11 +312,10 @@ def scanSymlink (cfg : Cfg) (path : String) (link : Fault × String) (enforcePor
 
 /-! ## The baseline-reuse walk (scan.go:536-570 over entry.go:222-249) -/
 
-mutual
-/-- `directoryBaseline.walk(path, visitor, false)` with the visitor of
-scan.go:536-570; the `Bool` is `missingCacheEntries`. -/
-def reuseWalk (acc : Accel) (path : String) : Entry → St × Bool → St × Bool
-  | .mk p cs, (st, missing) =>
+/-- The visitor of scan.go:536-570 on one entry at `path`; the `Bool` is
+`missingCacheEntries`. -/
+def reuseVisit (acc : Accel) (path : String) (p : Props) : St × Bool → St × Bool
+  | (st, missing) =>
     let isDirKind := p.kind == .directory || p.kind == .phantom
     let st :=
       if isDirKind then { st with dirs := st.dirs + 1 }
@@ -329,13 +328,18 @@ def reuseWalk (acc : Accel) (path : String) : Entry → St × Bool → St × Boo
         | some v => { st with newIgnore := ((path, isDirKind), v) :: st.newIgnore }
         | none => st
       else st
-    let (st, missing) :=
-      if p.kind == .file then
-        match alookup path acc.cache with
-        | some ce => ({ st with newCache := (path, ce) :: st.newCache, size := st.size + ce.size }, missing)
-        | none => (st, true)
-      else (st, missing)
-    reuseWalkL acc (if cs.isEmpty then "" else joinable path) cs (st, missing)
+    if p.kind == .file then
+      match alookup path acc.cache with
+      | some ce => ({ st with newCache := (path, ce) :: st.newCache, size := st.size + ce.size }, missing)
+      | none => (st, true)
+    else (st, missing)
+
+mutual
+/-- `directoryBaseline.walk(path, visitor, false)` (entry.go:222-249) with the
+visitor of scan.go:536-570. -/
+def reuseWalk (acc : Accel) (path : String) : Entry → St × Bool → St × Bool
+  | .mk p cs, s =>
+    reuseWalkL acc (if cs.isEmpty then "" else joinable path) cs (reuseVisit acc path p s)
 def reuseWalkL (acc : Accel) (pfx : String) : Contents → St × Bool → St × Bool
   | [], s => s
   | (n, c) :: r, s => reuseWalkL acc pfx r (reuseWalk acc (pfx ++ n) c s)
